@@ -196,6 +196,11 @@ func vfRunReset(t *testing.T, spec *vfSpec, res *vfRes) {
 						if err == nil {
 							run.nWrit.Add(1)
 						}
+						if pace := spec.x("pace_ms", 0); pace > 0 {
+							// a paced writer: the incarnation is still writing when late answers to retransmitted
+							// requests of the previous incarnation arrive
+							time.Sleep(time.Duration(pace) * time.Millisecond)
+						}
 					}
 					if q == 0 {
 						// a stream with nothing written is unknown to the peer: write one message so that it exists
@@ -506,7 +511,7 @@ func vfGenResetSpecs(tier string, seed uint64, race bool) []vfSpec {
 		n = vfTierN(tier, 30, 200)
 	}
 	out := make([]vfSpec, 0, n)
-	faults := []string{"none", "loss", "drop-request", "drop-request-2", "drop-response", "delay-data", "dup-reconfig", "reorder", "harsh"}
+	faults := []string{"none", "loss", "drop-request", "drop-request-2", "drop-response", "delay-data", "dup-reconfig", "reorder", "harsh", "drop-responses"}
 	for i := 0; i < n; i++ {
 		r := vfNewRand(vfHash(seed, uint64(i), 0xC14))
 		sp := vfSpec{Prop: "C14", Kind: "reset", ID: fmt.Sprintf("C14-reset-%d", i), Seed: r.Uint64()}
@@ -526,6 +531,13 @@ func vfGenResetSpecs(tier string, seed uint64, race bool) []vfSpec {
 			l.Script = []vfFault{{Dir: 0, Kind: "RECONFIG", Nth: 1, Act: "drop"}, {Dir: 0, Kind: "RECONFIG", Nth: 2, Act: "drop"}, {Dir: 1, Kind: "RECONFIG", Nth: 2, Act: "drop"}}
 		case "drop-response":
 			l.Script = []vfFault{{Dir: 1, Kind: "RECONFIG", Nth: 1, Act: "drop"}, {Dir: 0, Kind: "RECONFIG", Nth: 3, Act: "drop"}}
+		case "drop-responses":
+			// the first responses of one side are all lost (its own requests get through): the peer's request is still
+			// being retransmitted, and finally answered "nothing to do", after the identifier was re-opened
+			d := r.Intn(2)
+			for nth := 1; nth <= 2+r.Intn(3); nth++ {
+				l.Script = append(l.Script, vfFault{Dir: d, Kind: "RECONFIG-RESP", Nth: nth, Act: "drop"})
+			}
 		case "delay-data":
 			// the data in front of the reset request is delayed so that the request overtakes it
 			kind := "DATA"
@@ -553,6 +565,15 @@ func vfGenResetSpecs(tier string, seed uint64, race bool) []vfSpec {
 			"streams": int64(r.Pick(1, 1, 2, 4, 16)), "incarnations": int64(r.Pick(1, 2, 3, 5)), "q": int64(r.Pick(0, 1, 3, 10, 40, 200)),
 			"unordered": int64(r.Intn(2)), "slow_reader": int64(r.Intn(3) / 2), "alternate": int64(r.Intn(2)),
 			"settle_ms": int64(r.Pick(0, 0, 50, 3000)), "idle_close": int64(r.Intn(2)),
+		}
+		if fk == "drop-responses" || r.Intn(6) == 0 {
+			sp.X["pace_ms"] = int64(r.Pick(200, 700))
+			if sp.X["q"] > 10 {
+				sp.X["q"] = int64(r.Pick(3, 10))
+			}
+			if sp.X["incarnations"] < 2 {
+				sp.X["incarnations"] = 2
+			}
 		}
 		if sp.X["q"] == 200 {
 			sp.X["streams"] = int64(r.Pick(1, 2))
